@@ -25,16 +25,17 @@ type hostileReq struct {
 	Method string `json:"method"`
 	Path   string `json:"path"`
 	// Body is built from Base (a well-formed body of endpoint Ep) by one mutation.
-	Ep       string `json:"ep"`       // which endpoint's well-formed body is the base ("" = none)
-	Mutation string `json:"mutation"` // see mutateBody
-	Field    string `json:"field"`
-	Value    string `json:"value"` // raw JSON text put in place of the field's value
-	Cut      int    `json:"cut"`
-	Raw      []byte `json:"raw"` // for Mutation == "raw"
-	Size     int    `json:"size"` // for big bodies
-	KeepAlive bool  `json:"keep_alive"` // send on a pooled keep-alive connection instead of a connection of its own
-	Probe    bool   `json:"probe"`
-	ProbeReq restStep `json:"probe_req"`
+	Ep        string   `json:"ep"`       // which endpoint's well-formed body is the base ("" = none)
+	Mutation  string   `json:"mutation"` // see mutateBody
+	Field     string   `json:"field"`
+	Value     string   `json:"value"` // raw JSON text put in place of the field's value
+	Cut       int      `json:"cut"`
+	Raw       []byte   `json:"raw"`            // for Mutation == "raw"
+	Size      int      `json:"size"`           // for big bodies
+	Unit      string   `json:"unit,omitempty"` // big strings: the repeated unit ("" = "A")
+	KeepAlive bool     `json:"keep_alive"`     // send on a pooled keep-alive connection instead of a connection of its own
+	Probe     bool     `json:"probe"`
+	ProbeReq  restStep `json:"probe_req"`
 }
 
 type c19Case struct {
@@ -199,7 +200,11 @@ func (h hostileReq) buildBody() (body []byte, mustRefuse bool, class string) {
 		base["raw_suite"] = h.Value
 		return enc(base), false, "contradictory-suites"
 	case "big-string":
-		base[h.Field] = strings.Repeat("A", h.Size)
+		unit := h.Unit
+		if unit == "" {
+			unit = "A"
+		}
+		base[h.Field] = strings.Repeat(unit, h.Size/len(unit)+1)[:h.Size]
 		b := enc(base)
 		if len(b) > 1<<20 {
 			return b, true, "over-limit-body"
@@ -319,8 +324,9 @@ func checkC19(c c19Case) verdict {
 			labels = append(labels, "over-limit-conn-closed")
 			continue
 		}
-		if d := time.Since(t0); d > 3*time.Second && class == "extreme-number" {
-			// work must not grow with a numeric parameter (normal cost ~100 us): measure once more, alone
+		if d := time.Since(t0); d > 3*time.Second && (class == "extreme-number" || class == "huge-string") {
+			// work must not grow with a numeric parameter (normal cost ~100 us) nor faster than linearly with a string
+			// (normal cost of a 1 MiB body: a few ms): measure once more, alone
 			t1 := time.Now()
 			_, _, err2 := rawHTTP(sv.addr, h.Method, h.Path, body, 15*time.Second)
 			if d2 := time.Since(t1); err2 != nil || d2 > 3*time.Second {
@@ -461,6 +467,9 @@ func drawHostile(t *rapid.T) hostileReq {
 			}
 		}
 		h.Field = rapid.SampledFrom(strs).Draw(t, "bigField")
+		// what the string is made of decides which normalisation / scanning code it exercises: letters only, separators
+		// (blanks, dashes, padding) between letters or alone, digits, escapes, multi-byte characters
+		h.Unit = rapid.SampledFrom([]string{"", "", "A ", " ", "A-", "-", "=", "A=", "0", "7", "\n", "A\t", "\"", "\\", "é", "%20", ":", "a", "OCRA-1:", "Q"}).Draw(t, "bigUnit")
 	case "nested":
 		h.Size = rapid.SampledFrom([]int{10, 1000, 100000}).Draw(t, "depth")
 	}
@@ -504,4 +513,101 @@ func TestC19_Hostile(t *testing.T) {
 		}
 		return c
 	})
+}
+
+// ---------------------------------------------------------------------------
+// Big strings, enumerated: every string field of every POST endpoint (and of the OCRA input object) filled with
+// a near-limit string made of each unit. What a string is made of decides which scanning / normalising code it
+// reaches, so the random histories (one unit per big-string request) are complemented by the complete product.
+
+type c19BigCase struct {
+	Ep    string `json:"ep"`
+	Field string `json:"field"` // "input.<name>" = a field of the OCRA input object
+	Unit  string `json:"unit"`
+	Size  int    `json:"size"`
+}
+
+var bigUnits = []string{"A", "A ", " A", "-", "A-", "=", "A=", "7", "0", "\n", "\t A", "é", "%", ":", "OCRA-1:", "-Q", "3132", "0x", "\"", "\\"}
+
+func checkC19Big(c c19BigCase) verdict {
+	sv := server()
+	base := baseBody(c.Ep)
+	val := strings.Repeat(c.Unit, c.Size/len(c.Unit)+1)[:c.Size]
+	if strings.HasPrefix(c.Field, "input.") {
+		in, _ := base["input"].(map[string]any)
+		if in == nil {
+			in = map[string]any{}
+		}
+		in[c.Field[len("input."):]] = val
+		base["input"] = in
+	} else {
+		base[c.Field] = val
+	}
+	body, _ := json.Marshal(base)
+	labels := []string{"ep=" + c.Ep, "field=" + c.Field}
+	path := postEndpoints[c.Ep]
+	t0 := time.Now()
+	status, _, err := rawHTTP(sv.addr, "POST", path, body, 5*time.Second)
+	d := time.Since(t0)
+	if err != nil || d > 3*time.Second {
+		t1 := time.Now()
+		_, _, err2 := rawHTTP(sv.addr, "POST", path, body, 15*time.Second)
+		d2 := time.Since(t1)
+		if err2 != nil || d2 > 3*time.Second {
+			hang("C19", "big-strings", c, recorders["C19/big-strings"], fmt.Sprintf("POST %s with a %d-byte %s made of %q: first attempt %v (%v), alone again %v (%v): the normal cost of a body of this size is a few ms, so the work grows faster than linearly with the string (or the request is never answered)", path, c.Size, c.Field, c.Unit, d.Round(time.Millisecond), err, d2.Round(time.Millisecond), err2))
+		}
+		labels = append(labels, "slow-once")
+	}
+	if status < 200 || status > 599 {
+		return bad(true, labels, "POST %s with a %d-byte %s: status %d", path, c.Size, c.Field, status)
+	}
+	labels = append(labels, fmt.Sprintf("status=%dxx", status/100))
+	// the service keeps serving
+	if st, rb, perr := rawHTTP(sv.addr, "POST", "/hotp/generate", []byte(`{"secret":"GEZDGNBVGY3TQOJQGEZDGNBVGY3TQOJQ","counter":1,"digits":"6","algorithm":"SHA1"}`), 5*time.Second); perr != nil || st != 200 || !strings.Contains(string(rb), `"287082"`) {
+		return bad(true, labels, "probe after the big request: status %d body %s err %v (want 200 with the RFC 4226 value 287082)", st, trunc(string(rb), 200), perr)
+	}
+	if !sv.alive() {
+		return bad(true, labels, "the server process died: %s", tailStr(sv.stderr.String(), 800))
+	}
+	if sv.stderr.alarm() {
+		return bad(true, labels, "the server reports an unrecovered panic, a fatal error or a data race: %s", trunc(sv.stderr.String(), 1500))
+	}
+	return ok(true, labels...)
+}
+
+var c19Big = newPart("C19", "big-strings",
+	"complete product: every string field of every POST endpoint and of the OCRA input object x 20 repeated units (letters, blanks / dashes / padding between letters and alone, digits, hex, control characters, multi-byte, quotes, suite-name fragments) at a size just below the 1 MiB body limit (thorough: also 64 KiB and 300 KB); invariant: a complete HTTP response within 3 s (one lone re-measurement; the normal cost is a few ms), the RFC probe afterwards is answered correctly, no unrecovered panic; every case distinct and non-trivial",
+	checkC19Big)
+
+func TestC19_BigStrings(t *testing.T) {
+	defer c19Big.rec().Flush()
+	sizes := []int{1<<20 - 4000}
+	units := bigUnits
+	if ev.Thorough() {
+		sizes = []int{1<<20 - 4000, 300_000, 65_536}
+	}
+	i := 0
+	for _, ep := range []string{"totp-gen", "totp-val", "hotp-gen", "hotp-val", "ocra-gen", "ocra-val", "suite", "url"} {
+		var fs []string
+		for _, f := range sortedFieldNames(ep) {
+			if fieldTypes[ep][f] == "s" {
+				fs = append(fs, f)
+			}
+		}
+		if ep == "ocra-gen" || ep == "ocra-val" {
+			fs = append(fs, "input.counter_hex", "input.challenge_hex", "input.password_hex", "input.session_info_hex", "input.timestamp_hex")
+		}
+		for _, f := range fs {
+			for _, u := range units {
+				for _, sz := range sizes {
+					i++
+					if !ev.Mine(i) {
+						continue
+					}
+					c19Big.each(t, c19BigCase{Ep: ep, Field: f, Unit: u, Size: sz})
+				}
+			}
+		}
+	}
+	c19Big.rec().Exhaustive()
 }
